@@ -36,7 +36,8 @@ BOUNDS = {
   "quick": "trees N<=2 x {none, 10 singles, 45 pairs, all-on}; trees N=3 x {none, all-on} for all joint assignments and x 10 "
   "singles for joint kinds {hinge,slide,ball,free,weld}; chains n in {1..8,31..33,63..65} x {hinge, mixed}; 2 mixed-layout "
   "models; 4 flex models",
-  "thorough": "trees N<=3 x {none, singles, pairs, all-on}; trees N=4 x {all-on}; chains n in 1..70 x {hinge, mixed}; "
+  "thorough": "trees N<=3 x {none, singles, pairs, all-on}; trees N=4 x {all-on} for all joint assignments and x 10 singles for joint "
+  "kinds {hinge,slide,ball,free,weld}; chains n in 1..70 x {hinge, mixed}; "
   "mixed-layout and flex models",
 }
 ASSUMPTIONS = [
@@ -44,7 +45,7 @@ ASSUMPTIONS = [
   "real values from curated alphabets (VERIF_SEED mod 4), structure exhaustive",
   "constraints are disabled (contype=0, no limits/equalities) so MuJoCo's qacc equals qacc_smooth; qacc_smooth itself is compared too",
   "flex passive forces: four small flexcomp grids only (dim 1/2/3, elasticity, Rayleigh damping, edge stiffness/damping); flex is C40's subject",
-  "triples of decorations (DESIGN thorough) are replaced by the all-on set; N=4 only with all-on (cost)",
+  "triples of decorations (DESIGN thorough) are replaced by the all-on set; N=4 only with all-on and singles (cost)",
   "CPU backend only",
 ]
 BUDGET = {"quick": 400, "thorough": 3000}
@@ -92,6 +93,7 @@ def scenarios(tier, seed):
   else:
     specs += _tree_specs(3, none + singles + pairs + allon)
     specs += _tree_specs(4, allon, nmin=4)
+    specs += _tree_specs(4, singles, kinds=("weld", "hinge", "slide", "ball", "free"), nmin=4)
     chain_n = list(range(1, 71))
   seen, out = set(), []
   for parents, joints, ds in specs:
